@@ -2,7 +2,7 @@
 # Full quick check of ALL properties against every behaviour-preserving refactoring of seeded_benign/ (scratch worktrees).
 # None may print a VIOLATION line.  usage: tools/benfull.sh [ids...]  -> /tmp/benfull/<id>.log ; summary on stdout
 cd /verif; mkdir -p /tmp/benfull
-ids=${@:-$(ls seeded_benign)}
+ids=${@:-$(ls -d seeded_benign/*/ | xargs -n1 basename)}
 run_one() { id=$1; lane=$2; wt=/tmp/wt_bf_$lane
   [ -d $wt ] || git -C /repo worktree add --detach $wt HEAD >/dev/null 2>&1
   git -C $wt checkout -q -- . ; git -C $wt clean -qfd
